@@ -45,7 +45,7 @@ let parse_field (t : toks) : field =
   let lab = label_of_string (next t) in
   let ty = ftype_of_string (next t) in
   let q = quant_of_string (next t) in
-  let packed = next_int t = 1 in
+  let packed = (next_int t) land 1 = 1 in   (* bit 1 = DEPRECATED: of no consequence to the model *)
   let oneof = next_int t = 1 in
   let sub = (let s = next t in if s = "-" then 0 else int_of_string s) in
   let d = dflt_of_string (next t) in
